@@ -1,10 +1,12 @@
 """C34 - time zone conversions round-trip (TzIndex.tla).
 
 S->C (model checking): TLC enumerates every synthetic zone of the bounded design model MC_TzIndex
-(<= 2/3 transitions anywhere in a window of hours around a UTC midnight, offsets +-1..2 h, gaps, overlaps,
-abbreviation-only changes); the worker installs each one into moment's zone table and runs the real
-ts_to_dt / dt_to_ts / date_to_ts on every instant, every local time x favoured offset and every date of
-the window; TLC judges every result with TzIndex!Fails.
+(quick: <= 2 transitions at any hours of a 12-hour window around a UTC midnight; thorough: <= 3, plus <= 2 in
+a 20-hour window; offsets +-1..2 h, gaps, overlaps, abbreviation-only changes, transitions at the window
+edges; plus zones crossing the date line); the worker installs each one into moment's zone table and runs
+the real ts_to_dt / dt_to_ts / date_to_ts on every instant, every local time x favoured offset and every
+date of the window; TLC judges every result with TzIndex!Fails.  Seeded random zones beyond the bound
+(<= 5 transitions in 48 hours, offsets -14..+12 h) go through the same judge.
 C->S (exploration): the bundled zones (a seeded sample in quick, all in thorough): every transition x
 {-1 h, -1 s, 0, +1 s, +1 h}, the edges of the skipped / repeated local times, the dates around, and random
 instants / local times / dates of the supported range, logged as opaque tokens together with the
